@@ -1,1 +1,1095 @@
-//! C06 harnesses.
+//! C06 — command ring (ManyToOneRingBuffer): each written command is read exactly once, intact, in order.
+//!
+//! Regime R1 (HARNESS_GUIDE): the ring is ONE object of capacity + 768-byte trailer = 800 B (`fs=801`); everything
+//! that decides WHERE bytes go (head, tail, message length, preemption point) is a literal inside each branch,
+//! everything else (payload, type id, head-cache word, message limit, counters) is symbolic.
+//! "Solver-chosen but concretised": a selector chosen by the solver (`kani::any`) is case-split with `split!` into an
+//! else-if chain whose arms call the body with a literal, so every combination is decided by the solver while CBMC
+//! still constant-propagates the layout inside each arm (each arm starts from the state before the split).
+//! Oracle: `spec_place` — the placement rule of the property statement in i128 arithmetic (never calls ring code);
+//! trailer offsets are the literal numbers of the Aeron ring-buffer descriptor (tail +128, head cache +256, head +384,
+//! correlation counter +512, consumer heartbeat +640 behind the data area).
+use super::hook;
+use super::util::*;
+use crate::command::control_protocol_events::AeronCommand;
+use crate::concurrent::atomic_buffer::AtomicBuffer;
+use crate::concurrent::ring_buffer::{ManyToOneRingBuffer, RingBufferError};
+use crate::utils::types::Index;
+
+pub const CAP: usize = 32;
+pub const N: usize = CAP + 768;
+pub const TAIL_AT: usize = CAP + 128;
+pub const HCACHE_AT: usize = CAP + 256;
+pub const HEAD_AT: usize = CAP + 384;
+pub const CORR_AT: usize = CAP + 512;
+pub const HBEAT_AT: usize = CAP + 640;
+/// longest message a ring of this capacity takes (capacity / 8)
+pub const MAX_MSG: i32 = (CAP / 8) as i32;
+
+/// The ring memory: capacity + trailer bytes, 16-aligned.
+#[repr(C, align(16))]
+pub struct Ring(pub [u8; N]);
+
+impl Ring {
+    pub fn buf(&mut self) -> AtomicBuffer {
+        AtomicBuffer::new(self.0.as_mut_ptr(), N as Index)
+    }
+    pub fn i64_at(&self, at: usize) -> i64 {
+        let m = &self.0;
+        i64::from_le_bytes([m[at], m[at + 1], m[at + 2], m[at + 3], m[at + 4], m[at + 5], m[at + 6], m[at + 7]])
+    }
+    pub fn i32_at(&self, at: usize) -> i32 {
+        let m = &self.0;
+        i32::from_le_bytes([m[at], m[at + 1], m[at + 2], m[at + 3]])
+    }
+    pub fn byte(&self, at: usize) -> u8 {
+        self.0[at]
+    }
+    pub fn set_i64(&mut self, at: usize, v: i64) {
+        let b = v.to_le_bytes();
+        let m = &mut self.0;
+        m[at] = b[0];
+        m[at + 1] = b[1];
+        m[at + 2] = b[2];
+        m[at + 3] = b[3];
+        m[at + 4] = b[4];
+        m[at + 5] = b[5];
+        m[at + 6] = b[6];
+        m[at + 7] = b[7];
+    }
+    pub fn set_i32(&mut self, at: usize, v: i32) {
+        let b = v.to_le_bytes();
+        let m = &mut self.0;
+        m[at] = b[0];
+        m[at + 1] = b[1];
+        m[at + 2] = b[2];
+        m[at + 3] = b[3];
+    }
+}
+
+/// The ring under test lives in a static (zero-initialised for free; moving an 800-byte local costs one symex step per
+/// element).  Unused trailer bytes are zero as in a freshly mapped CnC file.  ONE static with a distinctive non-zero
+/// field: Kani merges all-zero `static mut`s with same-content constant allocations (see hook.rs).
+#[repr(C, align(16))]
+pub struct World {
+    pub ring: Ring,
+    pub magic: u64,
+    /// the second producer (interference harnesses)
+    pub b_src: Mem<8>,
+    pub b_cmd: AeronCommand,
+    pub b_len: i32,
+    pub b_ran: bool,
+    pub b_ok: bool,
+    /// the consumer (interference harnesses)
+    pub c_limit: i32,
+    pub c_ran: bool,
+    pub c_count: i32,
+    pub log: Log,
+}
+
+pub static mut W: World = World {
+    ring: Ring([0u8; N]),
+    magic: 0x5a5a_4330_3652_1e07,
+    b_src: Mem([0u8; 8]),
+    b_cmd: AeronCommand::ClientKeepAlive,
+    b_len: 0,
+    b_ran: false,
+    b_ok: false,
+    c_limit: 0,
+    c_ran: false,
+    c_count: 0,
+    log: EMPTY_LOG,
+};
+
+pub fn world() -> &'static mut World {
+    unsafe { &mut *std::ptr::addr_of_mut!(W) }
+}
+
+pub fn ring_mem() -> &'static mut Ring {
+    unsafe { &mut *std::ptr::addr_of_mut!(W.ring) }
+}
+
+pub fn ring() -> ManyToOneRingBuffer {
+    vok!(ManyToOneRingBuffer::new(ring_mem().buf()), "C06: a ring over capacity 32 + trailer is accepted")
+}
+
+/// data area := arbitrary bytes
+pub fn fill_data(m: &mut Ring) {
+    let d: [i64; CAP / 8] = kani::any();
+    m.set_i64(0, d[0]);
+    m.set_i64(8, d[1]);
+    m.set_i64(16, d[2]);
+    m.set_i64(24, d[3]);
+}
+
+/// consumer position, producer position, head cache; correlation counter and heartbeat arbitrary
+pub fn set_positions(m: &mut Ring, head: i64, tail: i64, hcache: i64) {
+    m.set_i64(TAIL_AT, tail);
+    m.set_i64(HEAD_AT, head);
+    m.set_i64(HCACHE_AT, hcache);
+    m.set_i64(CORR_AT, kani::any());
+    m.set_i64(HBEAT_AT, kani::any());
+}
+
+/// Any command type a client may write (every protocol code >= 1), with its numeric code.
+pub fn any_cmd() -> (AeronCommand, i32) {
+    let id: i32 = kani::any();
+    kani::assume((0x01..=0x0E).contains(&id) || (0x0F01..=0x0F0A).contains(&id));
+    (AeronCommand::from_command_id(id), id)
+}
+
+/// else-if chain over literal alternatives of a solver-chosen selector
+#[macro_export]
+macro_rules! c06_split {
+    ($s:ident, $f:expr, $k:expr) => {
+        if $s == $k { $f($k) } else { kani::assume(false) }
+    };
+    ($s:ident, $f:expr, $k:expr, $($rest:expr),+) => {
+        if $s == $k { $f($k) } else { c06_split!($s, $f, $($rest),+) }
+    };
+}
+pub use c06_split as split;
+
+/// The lap magnitudes of the instance set: 0, 3 laps, 2^31 - capacity, 2^32, 2^40.
+pub const B0: i64 = 0;
+pub const B1: i64 = 3 * CAP as i64;
+pub const B2: i64 = (1i64 << 31) - CAP as i64;
+pub const B3: i64 = 1i64 << 32;
+pub const B4: i64 = 1i64 << 40;
+
+/// Placement rule of the property statement (i128: cannot wrap).
+#[derive(Copy, Clone)]
+pub struct Place {
+    pub accept: bool,
+    pub required: i64,
+    pub padding: i64,
+    pub tail_index: usize,
+    pub index: usize,
+    pub new_tail: i64,
+}
+
+pub fn spec_place(head: i64, tail: i64, len: i64) -> Place {
+    let cap = CAP as i128;
+    let required = (len as i128 + 8 + 7) / 8 * 8;
+    let used = tail as i128 - head as i128;
+    let tail_index = (tail as i128) % cap; // tail >= 0
+    let to_end = cap - tail_index;
+    let padding = if required > to_end { to_end } else { 0 };
+    let accept = len <= MAX_MSG as i64 && used + required + padding <= cap;
+    Place {
+        accept,
+        required: required as i64,
+        padding: padding as i64,
+        tail_index: tail_index as usize,
+        index: if padding != 0 { 0 } else { tail_index as usize },
+        new_tail: (tail as i128 + required + padding) as i64,
+    }
+}
+
+/// committed record `(len, type, bytes)` at `index`
+pub fn record_is(m: &Ring, index: usize, len: i32, id: i32, bytes: &[u8; 8]) -> bool {
+    let j: usize = kani::any();
+    kani::assume(j < 8);
+    m.i32_at(index) == len + 8 && m.i32_at(index + 4) == id && (j >= len as usize || m.byte(index + 8 + j) == bytes[j])
+}
+
+#[derive(Copy, Clone, Default)]
+pub struct Seen {
+    pub plain: bool,
+    pub wrap: bool,
+    pub refuse: bool,
+    pub too_long: bool,
+    pub cache_refreshed: bool,
+    pub cache_sufficient: bool,
+}
+
+// ------------------------------------------------------------------------------------------------------------------
+// a + d.  write step
+// ------------------------------------------------------------------------------------------------------------------
+
+/// One `write` of `len` bytes from the state prepared by the caller (head, tail literal; head cache `hc` symbolic).
+fn write_len(head: i64, tail: i64, hc: i64, cmd: AeronCommand, id: i32, len: i32, seen: &mut Seen) {
+    let m = ring_mem();
+    let mut src = Mem::<8>::any();
+    let p: usize = kani::any();
+    kani::assume(p < N);
+    let before = m.byte(p);
+    let rb = ring();
+    let r = rb.write(cmd, src.buf(), 0, len);
+    let sp = spec_place(head, tail, len as i64);
+    let hc_after = m.i64_at(HCACHE_AT);
+    assert!(hc_after == hc || hc_after == head, "C06: head cache holds a value the consumer position really had");
+    assert!(m.i64_at(HEAD_AT) == head, "C06: a producer never moves the consumer position");
+    let in_hcache = p >= HCACHE_AT && p < HCACHE_AT + 8;
+    let in_tail = p >= TAIL_AT && p < TAIL_AT + 8;
+    match r {
+        Ok(()) => {
+            assert!(len <= MAX_MSG, "C06: a message longer than the maximum was accepted");
+            assert!(sp.accept, "C06: write accepted although unconsumed bytes + record + wrap padding exceed the capacity");
+            assert!(m.i64_at(TAIL_AT) == sp.new_tail, "C06: producer position advances by exactly record + wrap padding");
+            assert!(record_is(m, sp.index, len, id, &src.0), "C06: committed record carries length, type and bytes of the command");
+            let mut in_pad = false;
+            if sp.padding != 0 {
+                assert!(m.i32_at(sp.tail_index) == sp.padding as i32, "C06: wrap padding record spans exactly the rest of the data area");
+                assert!(m.i32_at(sp.tail_index + 4) == -1, "C06: wrap padding record has the padding type");
+                in_pad = p >= sp.tail_index && p < sp.tail_index + 8;
+                seen.wrap = true;
+            } else {
+                seen.plain = true;
+            }
+            let in_rec = p >= sp.index && p < sp.index + 8 + len as usize;
+            assert!(in_rec || in_pad || in_tail || in_hcache || m.byte(p) == before,
+                "C06: write changed a byte outside its record, its padding header and the tail word");
+        }
+        Err(e) => {
+            assert!(!sp.accept, "C06: write refused although unconsumed bytes + record + wrap padding fit the capacity");
+            if len > MAX_MSG {
+                assert!(matches!(e, RingBufferError::MessageTooLong { .. }), "C06: over-long message is refused as too long");
+                assert!(hc_after == hc, "C06: refusing an over-long message touches nothing");
+                seen.too_long = true;
+            } else {
+                assert!(matches!(e, RingBufferError::InsufficientCapacity), "C06: lack of space is reported as insufficient capacity");
+                seen.refuse = true;
+            }
+            assert!(in_hcache || m.byte(p) == before, "C06: a refused write changed the ring");
+        }
+    }
+    if hc != head && len <= MAX_MSG {
+        if hc_after == head {
+            seen.cache_refreshed = true;
+        } else {
+            seen.cache_sufficient = true;
+        }
+    }
+}
+
+/// State (head = base + hi, tail = head + used) with a symbolic head-cache word that is a value the consumer position
+/// had less than 2^31 bytes ago; then one write of every length 0..=max+1.
+fn write_state(base: i64, hi: usize, used: usize, seen: &mut Seen) {
+    let m = ring_mem();
+    fill_data(m); // `write` never looks at the data area: arbitrary content, and the probe shows it is left alone
+    let head = base + hi as i64;
+    let tail = head + used as i64;
+    let hc: i64 = kani::any();
+    kani::assume(0 <= hc && hc <= head && head - hc <= i32::MAX as i64 - CAP as i64);
+    set_positions(m, head, tail, hc);
+    let (cmd, id) = any_cmd();
+    let len: i32 = kani::any();
+    kani::assume(0 <= len && len <= MAX_MSG + 1);
+    split!(len, |l| write_len(head, tail, hc, cmd, id, l, seen), 0, 1, 2, 3, 4, 5);
+}
+
+fn write_occupancies(base: i64, hi: usize, seen: &mut Seen) {
+    let used: usize = kani::any();
+    kani::assume(used <= CAP && used % 8 == 0);
+    split!(used, |u| write_state(base, hi, u, seen), 0, 8, 16, 24, 32);
+}
+
+macro_rules! write_cover {
+    ($seen:ident, plain) => { kani::cover!($seen.plain, "[must] accepted without wrap"); };
+    ($seen:ident, wrap) => { kani::cover!($seen.wrap, "[must] wrap path: padding record + record at index 0"); };
+    ($seen:ident, refuse) => { kani::cover!($seen.refuse, "[must] refuse path: insufficient capacity"); };
+    ($seen:ident, too_long) => { kani::cover!($seen.too_long, "[must] over-long message refused"); };
+    ($seen:ident, cache_refreshed) => { kani::cover!($seen.cache_refreshed, "[must] stale head cache refreshed from the consumer position"); };
+    ($seen:ident, cache_sufficient) => { kani::cover!($seen.cache_sufficient, "[must] stale head cache sufficient, not refreshed"); };
+}
+
+/// every occupancy x every message length at head index `hi`, lap magnitude `base`
+macro_rules! write_step_all {
+    ($name:ident, $base:expr, $hi:expr, [$($kind:ident),*]) => {
+        #[kani::proof]
+        fn $name() {
+            let mut seen = Seen::default();
+            write_occupancies($base, $hi, &mut seen);
+            $( write_cover!(seen, $kind); )*
+        }
+    };
+}
+
+/// one occupancy x every message length
+macro_rules! write_step_one {
+    ($name:ident, $base:expr, $hi:expr, $used:expr, [$($kind:ident),*]) => {
+        #[kani::proof]
+        fn $name() {
+            let mut seen = Seen::default();
+            write_state($base, $hi, $used, &mut seen);
+            $( write_cover!(seen, $kind); )*
+        }
+    };
+}
+
+// Instance table (generated once, static text): one harness per state (lap magnitude, head index, occupancy); inside,
+// the message length 0..=5 is chosen by the solver.  quick = every head index x every occupancy at lap 0, plus every
+// other lap magnitude at two alignments (head 24 / empty: the wrap alignment; head 16 / half full: tail on a lap
+// boundary, crossing 2^31 resp. 2^32).  thorough = the full product 5 x 4 x 5.
+// @verif tier=quick fs=801 unwind=2
+write_step_one!(c06_write_b0_h00_u00, B0, 0, 0, [plain, too_long]);
+// @verif tier=quick fs=801 unwind=2
+write_step_one!(c06_write_b0_h00_u08, B0, 0, 8, [plain, too_long]);
+// @verif tier=quick fs=801 unwind=2
+write_step_one!(c06_write_b0_h00_u16, B0, 0, 16, [plain, too_long]);
+// @verif tier=quick fs=801 unwind=2
+write_step_one!(c06_write_b0_h00_u24, B0, 0, 24, [plain, refuse, too_long]);
+// @verif tier=quick fs=801 unwind=2
+write_step_one!(c06_write_b0_h00_u32, B0, 0, 32, [refuse, too_long]);
+// @verif tier=quick fs=801 unwind=2
+write_step_one!(c06_write_b0_h08_u00, B0, 8, 0, [plain, too_long]);
+// @verif tier=quick fs=801 unwind=2
+write_step_one!(c06_write_b0_h08_u08, B0, 8, 8, [plain, too_long]);
+// @verif tier=quick fs=801 unwind=2
+write_step_one!(c06_write_b0_h08_u16, B0, 8, 16, [plain, refuse, too_long]);
+// @verif tier=quick fs=801 unwind=2
+write_step_one!(c06_write_b0_h08_u24, B0, 8, 24, [plain, refuse, too_long]);
+// @verif tier=quick fs=801 unwind=2
+write_step_one!(c06_write_b0_h08_u32, B0, 8, 32, [refuse, too_long]);
+// @verif tier=quick fs=801 unwind=2
+write_step_one!(c06_write_b0_h16_u00, B0, 16, 0, [plain, too_long]);
+// @verif tier=quick fs=801 unwind=2
+write_step_one!(c06_write_b0_h16_u08, B0, 16, 8, [plain, wrap, too_long]);
+// @verif tier=quick fs=801 unwind=2
+write_step_one!(c06_write_b0_h16_u16, B0, 16, 16, [plain, too_long]);
+// @verif tier=quick fs=801 unwind=2
+write_step_one!(c06_write_b0_h16_u24, B0, 16, 24, [plain, refuse, too_long]);
+// @verif tier=quick fs=801 unwind=2
+write_step_one!(c06_write_b0_h16_u32, B0, 16, 32, [refuse, too_long]);
+// @verif tier=quick fs=801 unwind=2
+write_step_one!(c06_write_b0_h24_u00, B0, 24, 0, [plain, wrap, too_long]);
+// @verif tier=quick fs=801 unwind=2
+write_step_one!(c06_write_b0_h24_u08, B0, 24, 8, [plain, too_long]);
+// @verif tier=quick fs=801 unwind=2
+write_step_one!(c06_write_b0_h24_u16, B0, 24, 16, [plain, too_long]);
+// @verif tier=quick fs=801 unwind=2
+write_step_one!(c06_write_b0_h24_u24, B0, 24, 24, [plain, refuse, too_long]);
+// @verif tier=quick fs=801 unwind=2
+write_step_one!(c06_write_b0_h24_u32, B0, 24, 32, [refuse, too_long]);
+// @verif tier=thorough fs=801 unwind=2
+write_step_one!(c06_write_b1_h00_u00, B1, 0, 0, [plain, too_long]);
+// @verif tier=thorough fs=801 unwind=2
+write_step_one!(c06_write_b1_h00_u08, B1, 0, 8, [plain, too_long]);
+// @verif tier=thorough fs=801 unwind=2
+write_step_one!(c06_write_b1_h00_u16, B1, 0, 16, [plain, too_long]);
+// @verif tier=thorough fs=801 unwind=2
+write_step_one!(c06_write_b1_h00_u24, B1, 0, 24, [plain, refuse, too_long]);
+// @verif tier=thorough fs=801 unwind=2
+write_step_one!(c06_write_b1_h00_u32, B1, 0, 32, [refuse, too_long]);
+// @verif tier=thorough fs=801 unwind=2
+write_step_one!(c06_write_b1_h08_u00, B1, 8, 0, [plain, too_long]);
+// @verif tier=thorough fs=801 unwind=2
+write_step_one!(c06_write_b1_h08_u08, B1, 8, 8, [plain, too_long]);
+// @verif tier=thorough fs=801 unwind=2
+write_step_one!(c06_write_b1_h08_u16, B1, 8, 16, [plain, refuse, too_long]);
+// @verif tier=thorough fs=801 unwind=2
+write_step_one!(c06_write_b1_h08_u24, B1, 8, 24, [plain, refuse, too_long]);
+// @verif tier=thorough fs=801 unwind=2
+write_step_one!(c06_write_b1_h08_u32, B1, 8, 32, [refuse, too_long]);
+// @verif tier=thorough fs=801 unwind=2
+write_step_one!(c06_write_b1_h16_u00, B1, 16, 0, [plain, too_long]);
+// @verif tier=thorough fs=801 unwind=2
+write_step_one!(c06_write_b1_h16_u08, B1, 16, 8, [plain, wrap, too_long]);
+// @verif tier=quick fs=801 unwind=2
+write_step_one!(c06_write_b1_h16_u16, B1, 16, 16, [plain, too_long]);
+// @verif tier=thorough fs=801 unwind=2
+write_step_one!(c06_write_b1_h16_u24, B1, 16, 24, [plain, refuse, too_long]);
+// @verif tier=thorough fs=801 unwind=2
+write_step_one!(c06_write_b1_h16_u32, B1, 16, 32, [refuse, too_long]);
+// @verif tier=quick fs=801 unwind=2
+write_step_one!(c06_write_b1_h24_u00, B1, 24, 0, [plain, wrap, too_long]);
+// @verif tier=thorough fs=801 unwind=2
+write_step_one!(c06_write_b1_h24_u08, B1, 24, 8, [plain, too_long]);
+// @verif tier=thorough fs=801 unwind=2
+write_step_one!(c06_write_b1_h24_u16, B1, 24, 16, [plain, too_long]);
+// @verif tier=thorough fs=801 unwind=2
+write_step_one!(c06_write_b1_h24_u24, B1, 24, 24, [plain, refuse, too_long]);
+// @verif tier=thorough fs=801 unwind=2
+write_step_one!(c06_write_b1_h24_u32, B1, 24, 32, [refuse, too_long]);
+// @verif tier=thorough fs=801 unwind=2
+write_step_one!(c06_write_b2_h00_u00, B2, 0, 0, [plain, too_long]);
+// @verif tier=thorough fs=801 unwind=2
+write_step_one!(c06_write_b2_h00_u08, B2, 0, 8, [plain, too_long]);
+// @verif tier=thorough fs=801 unwind=2
+write_step_one!(c06_write_b2_h00_u16, B2, 0, 16, [plain, too_long]);
+// @verif tier=thorough fs=801 unwind=2
+write_step_one!(c06_write_b2_h00_u24, B2, 0, 24, [plain, refuse, too_long]);
+// @verif tier=thorough fs=801 unwind=2
+write_step_one!(c06_write_b2_h00_u32, B2, 0, 32, [refuse, too_long]);
+// @verif tier=thorough fs=801 unwind=2
+write_step_one!(c06_write_b2_h08_u00, B2, 8, 0, [plain, too_long]);
+// @verif tier=thorough fs=801 unwind=2
+write_step_one!(c06_write_b2_h08_u08, B2, 8, 8, [plain, too_long]);
+// @verif tier=thorough fs=801 unwind=2
+write_step_one!(c06_write_b2_h08_u16, B2, 8, 16, [plain, refuse, too_long]);
+// @verif tier=thorough fs=801 unwind=2
+write_step_one!(c06_write_b2_h08_u24, B2, 8, 24, [plain, refuse, too_long]);
+// @verif tier=thorough fs=801 unwind=2
+write_step_one!(c06_write_b2_h08_u32, B2, 8, 32, [refuse, too_long]);
+// @verif tier=thorough fs=801 unwind=2
+write_step_one!(c06_write_b2_h16_u00, B2, 16, 0, [plain, too_long]);
+// @verif tier=thorough fs=801 unwind=2
+write_step_one!(c06_write_b2_h16_u08, B2, 16, 8, [plain, wrap, too_long]);
+// @verif tier=quick fs=801 unwind=2
+write_step_one!(c06_write_b2_h16_u16, B2, 16, 16, [plain, too_long]);
+// @verif tier=thorough fs=801 unwind=2
+write_step_one!(c06_write_b2_h16_u24, B2, 16, 24, [plain, refuse, too_long]);
+// @verif tier=thorough fs=801 unwind=2
+write_step_one!(c06_write_b2_h16_u32, B2, 16, 32, [refuse, too_long]);
+// @verif tier=quick fs=801 unwind=2
+write_step_one!(c06_write_b2_h24_u00, B2, 24, 0, [plain, wrap, too_long]);
+// @verif tier=thorough fs=801 unwind=2
+write_step_one!(c06_write_b2_h24_u08, B2, 24, 8, [plain, too_long]);
+// @verif tier=thorough fs=801 unwind=2
+write_step_one!(c06_write_b2_h24_u16, B2, 24, 16, [plain, too_long]);
+// @verif tier=thorough fs=801 unwind=2
+write_step_one!(c06_write_b2_h24_u24, B2, 24, 24, [plain, refuse, too_long]);
+// @verif tier=thorough fs=801 unwind=2
+write_step_one!(c06_write_b2_h24_u32, B2, 24, 32, [refuse, too_long]);
+// @verif tier=thorough fs=801 unwind=2
+write_step_one!(c06_write_b3_h00_u00, B3, 0, 0, [plain, too_long]);
+// @verif tier=thorough fs=801 unwind=2
+write_step_one!(c06_write_b3_h00_u08, B3, 0, 8, [plain, too_long]);
+// @verif tier=thorough fs=801 unwind=2
+write_step_one!(c06_write_b3_h00_u16, B3, 0, 16, [plain, too_long]);
+// @verif tier=thorough fs=801 unwind=2
+write_step_one!(c06_write_b3_h00_u24, B3, 0, 24, [plain, refuse, too_long]);
+// @verif tier=thorough fs=801 unwind=2
+write_step_one!(c06_write_b3_h00_u32, B3, 0, 32, [refuse, too_long]);
+// @verif tier=thorough fs=801 unwind=2
+write_step_one!(c06_write_b3_h08_u00, B3, 8, 0, [plain, too_long]);
+// @verif tier=thorough fs=801 unwind=2
+write_step_one!(c06_write_b3_h08_u08, B3, 8, 8, [plain, too_long]);
+// @verif tier=thorough fs=801 unwind=2
+write_step_one!(c06_write_b3_h08_u16, B3, 8, 16, [plain, refuse, too_long]);
+// @verif tier=thorough fs=801 unwind=2
+write_step_one!(c06_write_b3_h08_u24, B3, 8, 24, [plain, refuse, too_long]);
+// @verif tier=thorough fs=801 unwind=2
+write_step_one!(c06_write_b3_h08_u32, B3, 8, 32, [refuse, too_long]);
+// @verif tier=thorough fs=801 unwind=2
+write_step_one!(c06_write_b3_h16_u00, B3, 16, 0, [plain, too_long]);
+// @verif tier=thorough fs=801 unwind=2
+write_step_one!(c06_write_b3_h16_u08, B3, 16, 8, [plain, wrap, too_long]);
+// @verif tier=quick fs=801 unwind=2
+write_step_one!(c06_write_b3_h16_u16, B3, 16, 16, [plain, too_long]);
+// @verif tier=thorough fs=801 unwind=2
+write_step_one!(c06_write_b3_h16_u24, B3, 16, 24, [plain, refuse, too_long]);
+// @verif tier=thorough fs=801 unwind=2
+write_step_one!(c06_write_b3_h16_u32, B3, 16, 32, [refuse, too_long]);
+// @verif tier=quick fs=801 unwind=2
+write_step_one!(c06_write_b3_h24_u00, B3, 24, 0, [plain, wrap, too_long]);
+// @verif tier=thorough fs=801 unwind=2
+write_step_one!(c06_write_b3_h24_u08, B3, 24, 8, [plain, too_long]);
+// @verif tier=thorough fs=801 unwind=2
+write_step_one!(c06_write_b3_h24_u16, B3, 24, 16, [plain, too_long]);
+// @verif tier=thorough fs=801 unwind=2
+write_step_one!(c06_write_b3_h24_u24, B3, 24, 24, [plain, refuse, too_long]);
+// @verif tier=thorough fs=801 unwind=2
+write_step_one!(c06_write_b3_h24_u32, B3, 24, 32, [refuse, too_long]);
+// @verif tier=thorough fs=801 unwind=2
+write_step_one!(c06_write_b4_h00_u00, B4, 0, 0, [plain, too_long]);
+// @verif tier=thorough fs=801 unwind=2
+write_step_one!(c06_write_b4_h00_u08, B4, 0, 8, [plain, too_long]);
+// @verif tier=thorough fs=801 unwind=2
+write_step_one!(c06_write_b4_h00_u16, B4, 0, 16, [plain, too_long]);
+// @verif tier=thorough fs=801 unwind=2
+write_step_one!(c06_write_b4_h00_u24, B4, 0, 24, [plain, refuse, too_long]);
+// @verif tier=thorough fs=801 unwind=2
+write_step_one!(c06_write_b4_h00_u32, B4, 0, 32, [refuse, too_long]);
+// @verif tier=thorough fs=801 unwind=2
+write_step_one!(c06_write_b4_h08_u00, B4, 8, 0, [plain, too_long]);
+// @verif tier=thorough fs=801 unwind=2
+write_step_one!(c06_write_b4_h08_u08, B4, 8, 8, [plain, too_long]);
+// @verif tier=thorough fs=801 unwind=2
+write_step_one!(c06_write_b4_h08_u16, B4, 8, 16, [plain, refuse, too_long]);
+// @verif tier=thorough fs=801 unwind=2
+write_step_one!(c06_write_b4_h08_u24, B4, 8, 24, [plain, refuse, too_long]);
+// @verif tier=thorough fs=801 unwind=2
+write_step_one!(c06_write_b4_h08_u32, B4, 8, 32, [refuse, too_long]);
+// @verif tier=thorough fs=801 unwind=2
+write_step_one!(c06_write_b4_h16_u00, B4, 16, 0, [plain, too_long]);
+// @verif tier=thorough fs=801 unwind=2
+write_step_one!(c06_write_b4_h16_u08, B4, 16, 8, [plain, wrap, too_long]);
+// @verif tier=quick fs=801 unwind=2
+write_step_one!(c06_write_b4_h16_u16, B4, 16, 16, [plain, too_long]);
+// @verif tier=thorough fs=801 unwind=2
+write_step_one!(c06_write_b4_h16_u24, B4, 16, 24, [plain, refuse, too_long]);
+// @verif tier=thorough fs=801 unwind=2
+write_step_one!(c06_write_b4_h16_u32, B4, 16, 32, [refuse, too_long]);
+// @verif tier=quick fs=801 unwind=2
+write_step_one!(c06_write_b4_h24_u00, B4, 24, 0, [plain, wrap, too_long]);
+// @verif tier=thorough fs=801 unwind=2
+write_step_one!(c06_write_b4_h24_u08, B4, 24, 8, [plain, too_long]);
+// @verif tier=thorough fs=801 unwind=2
+write_step_one!(c06_write_b4_h24_u16, B4, 24, 16, [plain, too_long]);
+// @verif tier=thorough fs=801 unwind=2
+write_step_one!(c06_write_b4_h24_u24, B4, 24, 24, [plain, refuse, too_long]);
+// @verif tier=thorough fs=801 unwind=2
+write_step_one!(c06_write_b4_h24_u32, B4, 24, 32, [refuse, too_long]);
+
+/// `write` with the padding type (the only member of the type set below 1): refused, nothing changes.
+// @verif tier=quick fs=801 unwind=2
+#[kani::proof]
+fn c06_write_rejects_non_positive_type() {
+    let m = ring_mem();
+    fill_data(m);
+    set_positions(m, B1 + 8, B1 + 16, B1 + 8);
+    let mut src = Mem::<8>::any();
+    let p: usize = kani::any();
+    kani::assume(p < N);
+    let before = m.byte(p);
+    let len: i32 = kani::any();
+    kani::assume(0 <= len && len <= MAX_MSG);
+    let rb = ring();
+    match rb.write(AeronCommand::Padding, src.buf(), 0, len) {
+        Ok(()) => assert!(false, "C06: a command with type id < 1 was accepted"),
+        Err(e) => assert!(matches!(e, RingBufferError::NonPositiveMessageTypeId(-1)), "C06: type id < 1 is refused as such"),
+    }
+    assert!(m.byte(p) == before, "C06: a refused write changed the ring");
+    kani::cover!(len == MAX_MSG, "[must] refusal with a maximal message explored");
+}
+
+/// d. head-cache staleness: the dedicated instances whose covers demand both the "stale but sufficient" and the
+/// "stale, refreshed" path (lap magnitudes > 0 so that earlier consumer positions exist).
+// @verif tier=quick fs=801 unwind=2
+write_step_one!(c06_head_cache_stale_plain, B1, 8, 8, [plain, cache_refreshed, cache_sufficient]);
+// @verif tier=quick fs=801 unwind=2
+write_step_one!(c06_head_cache_stale_wrap, B3, 24, 0, [wrap, cache_refreshed, cache_sufficient]);
+
+// ------------------------------------------------------------------------------------------------------------------
+// b.  read step
+// ------------------------------------------------------------------------------------------------------------------
+
+#[derive(Copy, Clone)]
+pub struct Cmd {
+    pub id: i32,
+    pub len: i32,
+    pub bytes: [u8; 8],
+}
+pub const NO_CMD: Cmd = Cmd { id: 0, len: 0, bytes: [0; 8] };
+
+/// What the consumer's handler was given, in call order.
+#[derive(Copy, Clone)]
+pub struct Log {
+    pub n: usize,
+    pub id: [i32; 4],
+    pub len: [i32; 4],
+    pub bytes: [[u8; 4]; 4],
+    pub overflow: bool,
+}
+pub const EMPTY_LOG: Log = Log { n: 0, id: [0; 4], len: [0; 4], bytes: [[0; 4]; 4], overflow: false };
+
+pub fn log_push(log: &mut Log, t: AeronCommand, b: AtomicBuffer) {
+    if log.n >= 4 {
+        log.overflow = true;
+        return;
+    }
+    let k = log.n;
+    let n = b.capacity();
+    log.id[k] = t as i32;
+    log.len[k] = n;
+    if n > 0 {
+        log.bytes[k][0] = b.get::<u8>(0);
+    }
+    if n > 1 {
+        log.bytes[k][1] = b.get::<u8>(1);
+    }
+    if n > 2 {
+        log.bytes[k][2] = b.get::<u8>(2);
+    }
+    if n > 3 {
+        log.bytes[k][3] = b.get::<u8>(3);
+    }
+    log.n = k + 1;
+}
+
+/// log entry k is command c, intact
+pub fn delivered_is(log: &Log, k: usize, c: &Cmd) -> bool {
+    let j: usize = kani::any();
+    kani::assume(j < 4);
+    log.id[k] == c.id && log.len[k] == c.len && (j >= c.len as usize || log.bytes[k][j] == c.bytes[j])
+}
+
+/// Command types of the commands that are read back.  They are literals: `read` fetches length and type as ONE
+/// 64-bit header word and CBMC does not fold `(header & 0xFFFF_FFFF)` of a half-symbolic word, so a symbolic type makes
+/// the length - the layout - symbolic (measured: 2-3.8 M variables per read instead of 0.2 M).  Every type id is
+/// covered by the write step (any id lands in the type word) and by `c06_read_any_type` (any id comes back).
+pub const TYPES: [AeronCommand; 4] =
+    [AeronCommand::AddPublication, AeronCommand::TerminateDriver, AeronCommand::ResponseOnClientTimeout, AeronCommand::AddCounter];
+
+/// a real `write` of a command with literal type and length, symbolic bytes; must be accepted
+pub fn produce(rb: &ManyToOneRingBuffer, cmd: AeronCommand, len: i32) -> Cmd {
+    let mut src = Mem::<8>::any();
+    vok!(rb.write(cmd, src.buf(), 0, len), "C06: harness instance: pre-fill write fits");
+    Cmd { id: cmd as i32, len, bytes: src.0 }
+}
+
+/// One record of the ring in position order as the property statement lays it out.
+#[derive(Copy, Clone)]
+pub struct Entry {
+    pub pos: i64,
+    pub alen: i64,
+    pub msg: i32, // index of the command, -1 = padding
+}
+pub const NO_ENTRY: Entry = Entry { pos: 0, alen: 0, msg: -1 };
+
+#[derive(Copy, Clone)]
+pub struct Layout {
+    pub e: [Entry; 8],
+    pub n: usize,
+    pub tail: i64,
+}
+
+/// add command number `msg` of length `len` to the layout (spec placement; must fit)
+pub fn layout_add(l: &mut Layout, head: i64, msg: i32, len: i32) {
+    let sp = spec_place(head, l.tail, len as i64);
+    assert!(sp.accept, "C06: harness instance: command fits by the placement rule");
+    if sp.padding != 0 {
+        l.e[l.n] = Entry { pos: l.tail, alen: sp.padding, msg: -1 };
+        l.n += 1;
+    }
+    l.e[l.n] = Entry { pos: l.tail + sp.padding, alen: sp.required, msg };
+    l.n += 1;
+    l.tail = sp.new_tail;
+}
+
+#[derive(Copy, Clone, Default)]
+pub struct ReadSeen {
+    pub cut: bool,
+    pub all: bool,
+    pub none: bool,
+    pub pad: bool,
+}
+
+/// The read step under test: `read(handler, limit)` with ANY limit from the current (literal) state of the ring,
+/// checked against the layout `l` (commands `w`), `d0` commands delivered before.
+pub fn read_step_check(rb: &ManyToOneRingBuffer, l: &Layout, w: &[Cmd; 4], log: &mut Log, seen: &mut ReadSeen) {
+    let m = ring_mem();
+    let head = m.i64_at(HEAD_AT);
+    let tail = m.i64_at(TAIL_AT);
+    assert!(tail == l.tail, "C06: producer position equals the sum of what was written");
+    let d0 = log.n;
+    // entry at the consumer position
+    let mut e0 = l.n;
+    let mut k = 0;
+    while k < l.n {
+        if l.e[k].pos == head {
+            e0 = k;
+        }
+        k += 1;
+    }
+    assert!(e0 < l.n || head == tail, "C06: consumer position is a record boundary");
+    let hidx = (head as i128 % CAP as i128) as i64;
+    let block_end = head + (CAP as i64 - hidx);
+    // messages inside the contiguous block [head, end of data area)
+    let mut in_block = 0;
+    let mut k = e0;
+    while k < l.n {
+        if l.e[k].pos < block_end && l.e[k].msg >= 0 {
+            in_block += 1;
+        }
+        k += 1;
+    }
+    let limit: i32 = kani::any();
+    let q: usize = kani::any();
+    kani::assume(q < CAP);
+    let before_q = m.byte(q);
+    let p: usize = kani::any();
+    kani::assume(p >= CAP && p < N && !(p >= HEAD_AT && p < HEAD_AT + 8));
+    let before_p = m.byte(p);
+
+    let c = rb.read(|t, b| log_push(log, t, b), limit);
+
+    let want = if limit <= 0 { 0 } else if (limit as i64) < in_block { limit as i64 } else { in_block };
+    assert!(c as i64 == want, "C06: read hands out min(limit, committed commands up to the end of the data area) commands");
+    assert!(!log.overflow && log.n == d0 + c as usize, "C06: handler called exactly once per command read");
+    // everything handed out so far is the written sequence, in order, intact, without repetition
+    let mut i = 0;
+    while i < 4 {
+        if i < log.n {
+            assert!(delivered_is(log, i, &w[i]), "C06: commands are delivered in the order written, each once, with the type and bytes written");
+        }
+        i += 1;
+    }
+    let h2 = m.i64_at(HEAD_AT);
+    assert!(h2 <= tail, "C06: consumer position passed the producer position");
+    assert!(h2 >= head && h2 <= block_end, "C06: consumer position moves forward inside the contiguous block");
+    // h2 is a record boundary with exactly the delivered commands below it
+    let mut below = 0;
+    let mut boundary = h2 == head || h2 == tail;
+    let mut k = e0;
+    while k < l.n {
+        if l.e[k].pos == h2 {
+            boundary = true;
+        }
+        if l.e[k].msg >= 0 && l.e[k].pos + l.e[k].alen <= h2 {
+            below += 1;
+        }
+        if l.e[k].msg < 0 && l.e[k].pos >= head && l.e[k].pos + l.e[k].alen <= h2 {
+            seen.pad = true;
+        }
+        k += 1;
+    }
+    assert!(boundary, "C06: consumer position stops at a record boundary");
+    assert!(below == c as i64, "C06: the space consumed is exactly the space of the commands handed out (plus padding)");
+    let qpos = head - hidx + q as i64; // position of data byte q in the lap of the consumer
+    if qpos >= head && qpos < h2 {
+        assert!(m.byte(q) == 0, "C06: consumed space is returned zeroed");
+    } else {
+        assert!(m.byte(q) == before_q, "C06: read changed data outside the space it consumed");
+    }
+    assert!(m.byte(p) == before_p, "C06: read changed the trailer apart from the consumer position");
+    assert!(rb.size() as i64 == tail - h2, "C06: size() is producer position - consumer position");
+    if c as i64 == in_block && in_block > 0 {
+        seen.all = true;
+    }
+    if (c as i64) < in_block && c > 0 {
+        seen.cut = true;
+    }
+    if c == 0 {
+        seen.none = true;
+    }
+}
+
+macro_rules! read_cover {
+    ($seen:ident, cut) => { kani::cover!($seen.cut, "[must] limit stops the read before the last committed command"); };
+    ($seen:ident, all) => { kani::cover!($seen.all, "[must] every committed command of the block handed out"); };
+    ($seen:ident, none) => { kani::cover!($seen.none, "[must] read that hands out nothing"); };
+    ($seen:ident, pad) => { kani::cover!($seen.pad, "[must] padding record consumed"); };
+}
+
+/// ring at (base + hi), empty and zeroed; real writes of the literal lengths; reads with the literal limits `pre`; then
+/// the read step with a symbolic limit.
+macro_rules! read_step {
+    ($name:ident, $base:expr, $hi:expr, [$($len:expr),*], [$($pre:expr),*], [$($kind:ident),*]) => {
+        #[kani::proof]
+        fn $name() {
+            let m = ring_mem();
+            let head: i64 = $base + $hi;
+            set_positions(m, head, head, head);
+            let rb = ring();
+            let mut w = [NO_CMD; 4];
+            let mut l = Layout { e: [NO_ENTRY; 8], n: 0, tail: head };
+            let mut nw = 0usize;
+            $(
+                w[nw] = produce(&rb, TYPES[nw], $len);
+                layout_add(&mut l, head, nw as i32, $len);
+                nw += 1;
+            )*
+            let mut log = EMPTY_LOG;
+            $( let _ = rb.read(|t, b| log_push(&mut log, t, b), $pre); )*
+            let mut seen = ReadSeen::default();
+            read_step_check(&rb, &l, &w, &mut log, &mut seen);
+            $( read_cover!(seen, $kind); )*
+        }
+    };
+}
+
+// full ring 16 + 8 + 8 from index 0: limit decides among 0..3 commands
+// @verif tier=quick unwind=9 unwindset=claim:2,RingBuffer4read:6,set_memory:33
+read_step!(c06_read_full_from_0, B0, 0, [4, 0, 0], [], [cut, all, none]);
+// wrapped fill: record at 16, padding at 24, record at 0 (full); first block holds one command + the padding
+// @verif tier=quick unwind=9 unwindset=claim:2,RingBuffer4read:6,set_memory:17
+read_step!(c06_read_wrapped_first_block, B1, 16, [0, 3], [], [all, none, pad]);
+// same ring after a read with limit 1: the consumer stands on the padding record
+// @verif tier=thorough unwind=9 unwindset=claim:2,RingBuffer4read:6,set_memory:9
+read_step!(c06_read_wrapped_on_padding, B1, 16, [0, 3], [1], [none, pad]);
+// same ring after the first block was consumed: consumer at index 0 of the next lap
+// @verif tier=thorough unwind=9 unwindset=claim:2,RingBuffer4read:6,set_memory:17
+read_step!(c06_read_wrapped_second_block, B1, 16, [0, 3], [i32::MAX], [all, none]);
+// positions crossing 2^31: padding at 2^31-8, records at 2^31 and 2^31+16; the padding consumed before
+// @verif tier=quick unwind=9 unwindset=claim:2,RingBuffer4read:6,set_memory:25
+read_step!(c06_read_across_2_31, B2, 24, [4, 0], [i32::MAX], [cut, all, none]);
+// partly filled ring at 2^40 + 8, three commands (the third wrapped to index 0), one consumed before
+// @verif tier=thorough unwind=9 unwindset=claim:2,RingBuffer4read:6,set_memory:17
+read_step!(c06_read_partial_2_40, B4, 8, [0, 1, 0], [1], [all, none]);
+// empty ring (everything consumed): nothing handed out, nothing changes
+// @verif tier=thorough unwind=9 unwindset=claim:2,RingBuffer4read:6,set_memory:17
+read_step!(c06_read_drained_2_32, B3, 8, [2], [5], [none]);
+// the remaining head alignments
+// @verif tier=thorough unwind=9 unwindset=claim:2,RingBuffer4read:6,set_memory:25
+read_step!(c06_read_h08, B0, 8, [3, 0], [], [cut, all, none]);
+// @verif tier=thorough unwind=9 unwindset=claim:2,RingBuffer4read:6,set_memory:9
+read_step!(c06_read_h24_wrap, B0, 24, [2, 0], [], [none, pad]);
+
+/// any command type comes back as written: one command with a symbolic type id, any limit
+// @verif tier=quick unwind=9 unwindset=claim:2,RingBuffer4read:6,set_memory:17
+#[kani::proof]
+fn c06_read_any_type() {
+    let m = ring_mem();
+    let head: i64 = B3 + 8;
+    set_positions(m, head, head, head);
+    let rb = ring();
+    let mut src = Mem::<8>::any();
+    let (cmd, id) = any_cmd();
+    vok!(rb.write(cmd, src.buf(), 0, 3), "C06: harness instance: pre-fill write fits");
+    let mut w = [NO_CMD; 4];
+    w[0] = Cmd { id, len: 3, bytes: src.0 };
+    let mut l = Layout { e: [NO_ENTRY; 8], n: 0, tail: head };
+    layout_add(&mut l, head, 0, 3);
+    let mut log = EMPTY_LOG;
+    let mut seen = ReadSeen::default();
+    read_step_check(&rb, &l, &w, &mut log, &mut seen);
+    kani::cover!(seen.all && log.id[0] == 0x0F09, "[must] a response-range type id read back");
+    kani::cover!(seen.all && log.id[0] == 0x01, "[must] the smallest type id read back");
+}
+
+// ------------------------------------------------------------------------------------------------------------------
+// c.  correlation ids
+// ------------------------------------------------------------------------------------------------------------------
+
+/// two ids from any counter value: distinct; increasing by one (below the i64 wrap); nothing else touched
+// @verif tier=quick fs=801 unwind=2
+#[kani::proof]
+fn c06_correlation_ids_unique_increasing() {
+    let m = ring_mem();
+    fill_data(m);
+    set_positions(m, B1, B1 + 8, B1);
+    let start: i64 = kani::any();
+    m.set_i64(CORR_AT, start);
+    let p: usize = kani::any();
+    kani::assume(p < N && !(p >= CORR_AT && p < CORR_AT + 8));
+    let before = m.byte(p);
+    let rb = ring();
+    let a = rb.next_correlation_id();
+    let b = rb.next_correlation_id();
+    assert!(a == start, "C06: the id handed out is the counter value");
+    assert!(a != b, "C06: two correlation ids handed out are distinct");
+    if start < i64::MAX {
+        assert!(b == a + 1 && b > a, "C06: correlation ids increase");
+    }
+    assert!(m.i64_at(CORR_AT) == start.wrapping_add(2), "C06: the counter advances once per id");
+    assert!(m.byte(p) == before, "C06: next_correlation_id touched something besides its counter");
+    kani::cover!(start == i64::MAX, "[must] counter at the i64 wrap explored");
+}
+
+// ------------------------------------------------------------------------------------------------------------------
+// e.  two parties mid-operation, one preemption (access hook)
+// ------------------------------------------------------------------------------------------------------------------
+// Schedule A[0..j) . X . A[j..] for every shared-memory access j of producer A's `write`, X = a COMPLETE operation of
+// another party on the same ring (producer B's write / the consumer's read).  j is chosen by the solver and
+// case-split into literal arms (the preemption point decides the layout).  j beyond A's last access = X after A.
+
+pub const CMD_A: AeronCommand = AeronCommand::AddSubscription; // 0x04
+pub const CMD_B: AeronCommand = AeronCommand::RemoveCounter; // 0x0A
+
+fn env_b_write() {
+    let w = world();
+    w.b_ran = true;
+    let rb = ring();
+    w.b_ok = match rb.write(w.b_cmd, w.b_src.buf(), 0, w.b_len) {
+        Ok(()) => true,
+        Err(e) => false,
+    };
+}
+
+fn env_consumer_read() {
+    let w = world();
+    w.c_ran = true;
+    let rb = ring();
+    let log = unsafe { &mut *std::ptr::addr_of_mut!(W.log) };
+    w.c_count = rb.read(|t, b| log_push(log, t, b), w.c_limit);
+}
+
+#[derive(Copy, Clone, Default)]
+pub struct ConcSeen {
+    pub before_cas: bool,
+    pub after_cas: bool,
+    pub sequential: bool,
+    pub refused: bool,
+    pub helped: bool,
+    pub too_late: bool,
+}
+
+/// the record (and wrap padding header) a placement `sp` promises is in the ring
+fn placed(m: &Ring, sp: &Place, len: i32, id: i32, bytes: &[u8; 8]) -> bool {
+    record_is(m, sp.index, len, id, bytes)
+        && (sp.padding == 0 || (m.i32_at(sp.tail_index) == sp.padding as i32 && m.i32_at(sp.tail_index + 4) == -1))
+}
+
+/// drain the ring with up to three unlimited reads (a wrap needs one read per block)
+fn drain(rb: &ManyToOneRingBuffer, log: &mut Log) {
+    let _ = rb.read(|t, b| log_push(log, t, b), i32::MAX);
+    let _ = rb.read(|t, b| log_push(log, t, b), i32::MAX);
+    let _ = rb.read(|t, b| log_push(log, t, b), i32::MAX);
+}
+
+/// Producer A (length la) preempted at access j by producer B's complete write (length lb) on an empty ring at `head`.
+fn two_producers_at(j: u32, head: i64, la: i32, lb: i32, seen: &mut ConcSeen) {
+    let m = ring_mem();
+    set_positions(m, head, head, head);
+    let w = world();
+    w.b_src = Mem::<8>::any();
+    w.b_cmd = CMD_B;
+    w.b_len = lb;
+    w.b_ran = false;
+    w.b_ok = false;
+    let mut src_a = Mem::<8>::any();
+    let rb = ring();
+    hook::begin(u32::MAX, j, Some(env_b_write as fn()), false);
+    let ra = rb.write(CMD_A, src_a.buf(), 0, la);
+    let n = hook::end();
+    let during = w.b_ran;
+    if !w.b_ran {
+        env_b_write();
+    }
+    let a_ok = ra.is_ok();
+    let b_ok = w.b_ok;
+    // the two sequential orders by the placement rule
+    let a1 = spec_place(head, head, la as i64);
+    let t_a = if a1.accept { a1.new_tail } else { head };
+    let b2 = spec_place(head, t_a, lb as i64);
+    let t_ab = if b2.accept { b2.new_tail } else { t_a };
+    let b1 = spec_place(head, head, lb as i64);
+    let t_b = if b1.accept { b1.new_tail } else { head };
+    let a2 = spec_place(head, t_b, la as i64);
+    let t_ba = if a2.accept { a2.new_tail } else { t_b };
+    let tail = m.i64_at(TAIL_AT);
+    let (ida, idb) = (CMD_A as i32, CMD_B as i32);
+    let ab = a_ok == a1.accept && b_ok == b2.accept && tail == t_ab
+        && (!a_ok || placed(m, &a1, la, ida, &src_a.0)) && (!b_ok || placed(m, &b2, lb, idb, &w.b_src.0));
+    let ba = a_ok == a2.accept && b_ok == b1.accept && tail == t_ba
+        && (!a_ok || placed(m, &a2, la, ida, &src_a.0)) && (!b_ok || placed(m, &b1, lb, idb, &w.b_src.0));
+    assert!(ab || ba, "C06: two concurrent writes leave the ring as one of the two sequential orders would: both records present once, intact, non-overlapping, capacity accounting exact");
+    assert!(m.i64_at(HEAD_AT) == head, "C06: producers never move the consumer position");
+    assert!(tail - head <= CAP as i64, "C06: unconsumed bytes never exceed the capacity");
+    if during && ba && !ab {
+        seen.before_cas = true;
+    }
+    if during && ab && !ba {
+        seen.after_cas = true;
+    }
+    if !during {
+        seen.sequential = true;
+    }
+    if !(a_ok && b_ok) {
+        seen.refused = true;
+    }
+    // the consumer hands each accepted command out exactly once, in ring order
+    let mut log = EMPTY_LOG;
+    drain(&rb, &mut log);
+    let ca = Cmd { id: ida, len: la, bytes: src_a.0 };
+    let cb = Cmd { id: idb, len: lb, bytes: w.b_src.0 };
+    let want = a_ok as usize + b_ok as usize;
+    assert!(!log.overflow && log.n == want, "C06: every accepted command is handed out exactly once");
+    if a_ok && b_ok {
+        let (first, second) = if ab { (&ca, &cb) } else { (&cb, &ca) };
+        assert!(delivered_is(&log, 0, first) && delivered_is(&log, 1, second), "C06: commands come out intact in claim order");
+    } else if a_ok {
+        assert!(delivered_is(&log, 0, &ca), "C06: the accepted command comes out intact");
+    } else if b_ok {
+        assert!(delivered_is(&log, 0, &cb), "C06: the accepted command comes out intact");
+    }
+    assert!(m.i64_at(HEAD_AT) == tail, "C06: a drained ring has consumer position == producer position");
+    let q: usize = kani::any();
+    kani::assume(q < CAP);
+    assert!(m.byte(q) == 0, "C06: consumed space is returned zeroed");
+}
+
+macro_rules! conc_cover {
+    ($seen:ident, before_cas) => { kani::cover!($seen.before_cas, "[must] interference before the claim CAS: the other producer's record comes first"); };
+    ($seen:ident, after_cas) => { kani::cover!($seen.after_cas, "[must] interference after the claim CAS: the preempted producer's record comes first"); };
+    ($seen:ident, sequential) => { kani::cover!($seen.sequential, "[must] preemption point beyond the last access (sequential order)"); };
+    ($seen:ident, refused) => { kani::cover!($seen.refused, "[must] one of the writes refused for lack of space"); };
+    ($seen:ident, helped) => { kani::cover!($seen.helped, "[must] write accepted thanks to the concurrent read"); };
+    ($seen:ident, too_late) => { kani::cover!($seen.too_late, "[must] write refused although the consumer freed space later during the write"); };
+}
+
+macro_rules! two_producers {
+    ($name:ident, $head:expr, $la:expr, $lb:expr, [$($j:expr),+], [$($kind:ident),*]) => {
+        #[kani::proof]
+        fn $name() {
+            let mut seen = ConcSeen::default();
+            let j: u32 = kani::any();
+            split!(j, |k| two_producers_at(k, $head, $la, $lb, &mut seen), $($j),+);
+            $( conc_cover!(seen, $kind); )*
+        }
+    };
+}
+
+// empty ring at 3 laps, A = 4 bytes, B = 1 byte: both fit without wrap
+// @verif tier=quick fs=801 unwind=4 unwindset=claim:3,RingBuffer4read:6,set_memory:33
+two_producers!(c06_conc_two_producers_plain_early, B1, 4, 1, [0, 1, 2, 3], [before_cas, after_cas]);
+// @verif tier=quick fs=801 unwind=4 unwindset=claim:3,RingBuffer4read:6,set_memory:33
+two_producers!(c06_conc_two_producers_plain_late, B1, 4, 1, [4, 5, 6, 7], [after_cas, sequential]);
+// empty ring at 2^31 - 8 (index 24): whoever claims first decides who wraps (A first: padding + A at 0, B at 16;
+// B first: B at 24, A at 0 without padding)
+// @verif tier=quick fs=801 unwind=4 unwindset=claim:3,RingBuffer4read:6,set_memory:33
+two_producers!(c06_conc_two_producers_wrap_early, B2 + 24, 4, 0, [0, 1, 2, 3, 4], [before_cas, after_cas]);
+// @verif tier=thorough fs=801 unwind=4 unwindset=claim:3,RingBuffer4read:6,set_memory:33
+two_producers!(c06_conc_two_producers_wrap_late, B2 + 24, 4, 0, [5, 6, 7, 8, 9, 10], [after_cas, sequential]);
+// index 24, A = 4 and B = 4: only the first claim fits (16 + padding 8, then 16 more exceed the capacity)
+// @verif tier=thorough fs=801 unwind=4 unwindset=claim:3,RingBuffer4read:6,set_memory:33
+two_producers!(c06_conc_two_producers_one_fits, B3 + 24, 4, 4, [0, 1, 2, 3, 4, 5, 6, 7, 8, 9, 10], [before_cas, after_cas, refused]);
+
+/// Full ring (two 16-byte records); producer A (length la) preempted at access j by a complete consumer read with
+/// limit `lim`, which frees space.
+fn producer_vs_consumer_at(j: u32, head: i64, la: i32, lim: i32, r: &[Cmd; 4], seen: &mut ConcSeen) {
+    let m = ring_mem();
+    let w = world();
+    w.c_limit = lim;
+    w.c_ran = false;
+    w.c_count = 0;
+    w.log = EMPTY_LOG;
+    let tail = m.i64_at(TAIL_AT);
+    let mut src_a = Mem::<8>::any();
+    let rb = ring();
+    hook::begin(u32::MAX, j, Some(env_consumer_read as fn()), false);
+    let ra = rb.write(CMD_A, src_a.buf(), 0, la);
+    let n = hook::end();
+    let during = w.c_ran;
+    if !w.c_ran {
+        env_consumer_read();
+    }
+    let a_ok = ra.is_ok();
+    let head2 = m.i64_at(HEAD_AT);
+    assert!(w.c_count == lim && head2 == head + 16 * lim as i64, "C06: the consumer's read is not disturbed by a concurrent write");
+    // A decided either before the consumer freed the space or after it
+    let before = spec_place(head, tail, la as i64);
+    let after = spec_place(head2, tail, la as i64);
+    assert!(!before.accept && after.accept, "C06: harness instance: the read makes the difference");
+    let tail2 = m.i64_at(TAIL_AT);
+    if a_ok {
+        assert!(during, "C06: write accepted although unconsumed bytes + record exceed the capacity");
+        assert!(tail2 == after.new_tail && placed(m, &after, la, CMD_A as i32, &src_a.0), "C06: accepted record placed by the rule on the freed space");
+        seen.helped = true;
+    } else {
+        assert!(tail2 == tail, "C06: a refused write leaves the producer position alone");
+        if during {
+            seen.too_late = true;
+        }
+    }
+    assert!(tail2 - head2 <= CAP as i64 && head2 <= tail2, "C06: unconsumed bytes stay within 0..=capacity");
+    // everything written is handed out exactly once, in order
+    let log = unsafe { &mut *std::ptr::addr_of_mut!(W.log) };
+    drain(&rb, log);
+    let ca = Cmd { id: CMD_A as i32, len: la, bytes: src_a.0 };
+    assert!(!log.overflow && log.n == 2 + a_ok as usize, "C06: every accepted command is handed out exactly once");
+    assert!(delivered_is(log, 0, &r[0]) && delivered_is(log, 1, &r[1]), "C06: earlier commands come out first, intact");
+    if a_ok {
+        assert!(delivered_is(log, 2, &ca), "C06: the concurrently written command comes out intact");
+    }
+    assert!(m.i64_at(HEAD_AT) == tail2, "C06: a drained ring has consumer position == producer position");
+}
+
+macro_rules! producer_vs_consumer {
+    ($name:ident, $head:expr, $la:expr, $lim:expr, [$($j:expr),+], [$($kind:ident),*]) => {
+        #[kani::proof]
+        fn $name() {
+            let m = ring_mem();
+            let head: i64 = $head;
+            set_positions(m, head, head, head);
+            let rb = ring();
+            let mut r = [NO_CMD; 4];
+            r[0] = produce(&rb, TYPES[0], 4);
+            r[1] = produce(&rb, TYPES[1], 3);
+            let mut seen = ConcSeen::default();
+            let j: u32 = kani::any();
+            split!(j, |k| producer_vs_consumer_at(k, head, $la, $lim, &r, &mut seen), $($j),+);
+            $( conc_cover!(seen, $kind); )*
+        }
+    };
+}
+
+// @verif tier=quick fs=801 unwind=4 unwindset=claim:3,RingBuffer4read:6,set_memory:33
+producer_vs_consumer!(c06_conc_consumer_frees_space_early, B3, 4, 1, [0, 1, 2, 3], [helped, too_late]);
+// @verif tier=thorough fs=801 unwind=4 unwindset=claim:3,RingBuffer4read:6,set_memory:33
+producer_vs_consumer!(c06_conc_consumer_frees_space_late, B3, 4, 1, [4, 5, 6, 7, 8, 9], [too_late]);
+// @verif tier=thorough fs=801 unwind=4 unwindset=claim:3,RingBuffer4read:6,set_memory:33
+producer_vs_consumer!(c06_conc_consumer_frees_all, B0, 0, 2, [0, 1, 2, 3, 4, 5, 6, 7, 8, 9], [helped, too_late]);
